@@ -243,11 +243,17 @@ def make_asint(mod, spec):
                                        if k_ == "built_as_integer_arrays" or k_.startswith("respelled_")})
 
         def oracle(r, b0=b0, seen=seen):
+            if spec.get("how") == "npscalar" and (r is None or r[0] != "ok"):
+                return []
             out = list(seen)
             if b0.oracle is not None:
                 out += [v for v in (b0.oracle(r) or []) if v not in out]
             return out
         def compare(r, a, mode, b0=b0):
+            if spec.get("how") == "npscalar" and not str(a).startswith("ok"):
+                # the plain call is refused (or divides by zero): with NumPy scalars the refusal may legitimately be another
+                # one (`isinstance(n, int)` fails for np.bool_) or none (np.float64 division gives inf) -- not compared
+                return None
             base = b0.compare if b0.compare is not None else \
                 (lambda r_, a_, m_: canon.compare(r_, a_, scale=b0.scale, rtol=b0.rtol))
             msg = base(r, a, mode)
@@ -306,8 +312,9 @@ def asint_specs(specs, rng, tier):
     if anyspec:
         cap = 150 if tier == "quick" else 900
         n = min(cap, max(15, len(anyspec) // 12), len(anyspec))
-        out += [{"op": "asint", "how": rng.choice(["strided", "readonly", "fortran"]),
-                 "mode": "all" if rng.random() < 0.5 else rng.randrange(1 << 16), "spec": s}
+        # (all arguments at once: results of the same computation in two memory layouts may differ in the last bit, which
+        # oracles that compare two calls of the library exactly would see if only one of them were respelled)
+        out += [{"op": "asint", "how": rng.choice(["strided", "readonly", "fortran", "npscalar"]), "mode": "all", "spec": s}
                 for s in rng.sample(anyspec, n)]
     return out
 
@@ -374,6 +381,12 @@ def _shift(x, rng, k):
     return [_shift(y, rng, k) for y in x]
 
 
+def _square(x):
+    return isinstance(x, list) and len(x) in (3, 4) and all(isinstance(r, list) and len(r) == len(x) and
+                                                           all(isinstance(v, (int, float)) and not isinstance(v, bool) for v in r)
+                                                           for r in x)
+
+
 def variant_of(spec, other, rng):
     """case A of a pair: B with some of its number arrays replaced -- by the same entry of another spec of the same op
     when the shapes agree, else by shifted numbers of the same shape.  Validity of A is not required."""
@@ -386,7 +399,9 @@ def variant_of(spec, other, rng):
     for p in paths[:n]:
         cur = _get(a, p)
         alt = _get(other, p) if other is not None else None
-        if alt is not None and _shape_sig(alt) == _shape_sig(cur) and alt != cur and rng.random() < 0.6:
+        if _square(cur) and rng.random() < 0.4:
+            _set(a, p, [list(r) for r in zip(*cur)])          # the transposed matrix (same bytes in the other memory order)
+        elif alt is not None and _shape_sig(alt) == _shape_sig(cur) and alt != cur and rng.random() < 0.6:
             _set(a, p, json.loads(json.dumps(alt)))
         else:
             _set(a, p, _shift(cur, rng, rng.choice([1, -1, 2, 3])))
